@@ -1,5 +1,6 @@
 (* util/geometry.py: cartesienne, projection_droite, proj_segment — generic in the number structure *)
-From Coq Require Import Bool.
+From Coq Require Import Bool List.
+Import ListNotations.
 From TL Require Import Model.Num.
 
 Section Geom.
@@ -30,7 +31,8 @@ Definition proj_segment (s : seg) (x y : T) : T * T * T :=
   let distance := abs N (a * x + b * y + c) / sqrt N (a * a + b * b) in
   let '(xp, yp) := proj_line s x y in
   let boolx := (leb N (sx1 s) xp && leb N xp (sx2 s)) || (leb N xp (sx1 s) && leb N (sx2 s) xp) in
-  let booly := (leb N (sy1 s) yp && leb N yp (sy2 s)) || (leb N yp (sy1 s) && leb N (sy2 s) yp) in
+  (* "or (y1 == y2)": horizontal segment, the recomputed ordinate may differ from y1 by rounding only (repair recorded under C20) *)
+  let booly := (leb N (sy1 s) yp && leb N yp (sy2 s)) || (leb N yp (sy1 s) && leb N (sy2 s) yp) || eqb N (sy1 s) (sy2 s) in
   if boolx && booly then
     (* the foot is recomputed exactly as in proj_line's non-degenerate branch (division by b) *)
     let xv := opp N b in let yv := a in
@@ -42,3 +44,23 @@ Definition proj_segment (s : seg) (x y : T) : T * T * T :=
     let d1 := dist_pt x y (sx1 s) (sy1 s) in let d2 := dist_pt x y (sx2 s) (sy2 s) in
     if leb N d1 d2 then (d1, sx1 s, sy1 s) else (d2, sx2 s, sy2 s).
 End Geom.
+
+(* proj_polyligne (geometry.py): segments shorter than eps (1e-16, L1 length) are skipped; strict < from +inf
+   (None = distmin still +inf, xproj / yproj / iproj unbound: the code then raises UnboundLocalError) *)
+Section Poly.
+Context {T : Type} (N : Num T).
+Definition poly_step (eps : T) (x y : T) (i : nat) (a : option (T * T * T * nat)) (p1 p2 : T * T) : option (T * T * T * nat) :=
+  let '(x1, y1) := p1 in let '(x2, y2) := p2 in
+  if ltb N (add N (abs N (sub N x1 x2)) (abs N (sub N y1 y2))) eps then a
+  else let '(d, xp, yp) := proj_segment N {| sx1 := x1; sy1 := y1; sx2 := x2; sy2 := y2 |} x y in
+       match a with
+       | None => Some (d, xp, yp, i)
+       | Some (dm, _, _, _) => if ltb N d dm then Some (d, xp, yp, i) else a
+       end.
+Fixpoint poly_scan (eps : T) (x y : T) (i : nat) (a : option (T * T * T * nat)) (pts : list (T * T)) : option (T * T * T * nat) :=
+  match pts with
+  | p1 :: ((p2 :: _) as r) => poly_scan eps x y (S i) (poly_step eps x y i a p1 p2) r
+  | _ => a
+  end.
+Definition proj_polyligne (eps : T) (pts : list (T * T)) (x y : T) : option (T * T * T * nat) := poly_scan eps x y 0 None pts.
+End Poly.
